@@ -22,6 +22,7 @@ _last = {}
 def gen_cases(tier, rng):
     yield from fanout.gen_wait_histories(tier, rng)
     yield from fanout.gen_histories(tier, rng, header_changes=True)
+    yield from fanout.gen_enhanced_sweep(tier, rng)
     yield from fanout.gen_rtsp_histories(tier, rng)
     yield from fanout.gen_rtsp_audio_histories(tier, rng)
 
